@@ -230,6 +230,7 @@ jcmd_jws_sig(int argc, char *argv[])
     } else {
         if (!opt.io.detach)
             fprintf(opt.io.output, "\",");
+        json_object_del(opt.io.obj, "payload");
         json_dumpf(opt.io.obj, opt.io.output,
                    JSON_EMBED | JSON_COMPACT | JSON_SORT_KEYS);
         fprintf(opt.io.output, "}");
